@@ -144,6 +144,10 @@ pub enum Ev {
     Unregister { name: usize, ctx: usize },
     TriggerOk { ctx: usize },
     TriggerFail { ctx: usize },
+    /// client unregister that names the instance in its meta (the form the start-up compaction honours)
+    UnregisterMeta { name: usize, ctx: usize },
+    /// the closure itself appends `<name>.unregister` (stamped with its own handler id)
+    SelfRetire { ctx: usize },
 }
 
 fn names() -> [&'static str; 2] {
@@ -152,8 +156,8 @@ fn names() -> [&'static str; 2] {
 
 fn lifecycle_script(name: &str) -> String {
     format!(
-        "{{\n  run: {{|frame|\n    if $frame.topic == \"boom\" {{ error make {{msg: \"boom\"}} }}\n    if $frame.topic != \"ping\" {{ return }}\n    \"{}\"\n  }}\n}}",
-        name
+        "{{\n  run: {{|frame|\n    if $frame.topic == \"boom\" {{ error make {{msg: \"boom\"}} }}\n    if $frame.topic == \"retire\" {{ null | .append {}.unregister; return }}\n    if $frame.topic != \"ping\" {{ return }}\n    \"{}\"\n  }}\n}}",
+        name, name
     )
 }
 
@@ -234,6 +238,28 @@ pub fn run_history(h: &[Ev]) -> (Vec<F>, String) {
                 }
             }
             Ev::TriggerOk { .. } => {}
+            Ev::UnregisterMeta { name, ctx } => {
+                if let Some(old) = active.remove(&(*ctx, *name)) {
+                    let f = w.append_c(&format!("{}.unregister", names()[*name]), ctxs[*ctx], None, Some(json!({"handler_id": old.to_string()})));
+                    let u = w.wait(|x| x.topic == format!("{}.unregistered", names()[*name]) && meta_str(x, "handler_id") == Some(old.to_string()) && meta_str(x, "frame_id") == Some(f.id.to_string()), 20.0);
+                    if u.is_none() {
+                        fs.push(F { kind: "c16.unregister.silent".into(), msg: format!("{} step {}: an unregister naming the instance in its meta was not announced", label, step) });
+                    }
+                    stopped.push(old);
+                }
+            }
+            Ev::SelfRetire { ctx } => {
+                w.append_c("retire", ctxs[*ctx], None, None);
+                let victims: Vec<((usize, usize), Scru128Id)> = active.iter().filter(|(k, _)| k.0 == *ctx).map(|(k, v)| (*k, *v)).collect();
+                for (k, id) in victims {
+                    let u = w.wait(|x| x.topic == format!("{}.unregistered", names()[k.1]) && meta_str(x, "handler_id") == Some(id.to_string()), 20.0);
+                    if u.is_none() {
+                        fs.push(F { kind: "c16.selfretire.silent".into(), msg: format!("{} step {}: a handler that appended its own unregister was not stopped / not announced", label, step) });
+                    }
+                    active.remove(&k);
+                    stopped.push(id);
+                }
+            }
         }
         // probe every context: exactly the active instances answer
         for (ci, c) in ctxs.iter().enumerate() {
@@ -305,6 +331,12 @@ pub fn histories(depth: usize, thorough: bool) -> Vec<Vec<Ev>> {
     for ctx in 0..2 {
         alphabet.push(Ev::TriggerOk { ctx });
         alphabet.push(Ev::TriggerFail { ctx });
+    }
+    alphabet.push(Ev::UnregisterMeta { name: 0, ctx: 0 });
+    alphabet.push(Ev::SelfRetire { ctx: 0 });
+    if thorough {
+        alphabet.push(Ev::UnregisterMeta { name: 0, ctx: 1 });
+        alphabet.push(Ev::SelfRetire { ctx: 1 });
     }
     let mut out: Vec<Vec<Ev>> = vec![];
     let mut level: Vec<Vec<Ev>> = vec![vec![]];
